@@ -45,6 +45,7 @@ pub fn generator(prop: &str) -> Option<Gen> {
         "C20" => Some(gen::gen_c20),
         "C16" => Some(gen::gen_c16),
         "C07" => Some(gen::gen_c07),
+        "C19" => Some(gen::gen_c19),
         _ => None,
     }
 }
@@ -54,6 +55,7 @@ pub fn budget(prop: &str, tier: &str) -> u64 {
         "C11" => 400,
         "C16" => 400,
         "C07" => 400,
+        "C19" => 300,
         "C14" => 3 * 6 * 155 + 200,
         _ => 150,
     };
